@@ -194,7 +194,21 @@ static int run_one(const Config& c, std::vector<int>& sched, int D, Stats& st, b
 		g_in_execution = true;
 		double r2	   = Find_Root(fn2, c.b, c.a, c.acc);
 		g_in_execution = false;
-		if(!mc::same_bits(r, r2) || e2.order != e.order) viol("bracket_order_matters", "Find_Root(f,a,b)=" + mc::dec(r) + " but Find_Root(f,b,a)=" + mc::dec(r2) + " or the query sequences differ");
+		// the guarantee holds "whichever order the ends are given in": the reversed call is judged by the same three clauses
+		// (the property does not promise the SAME point or the same evaluation order; differences are only counted)
+		if(!mc::same_bits(r, r2) || e2.order != e.order) mc::count("reversed_bracket_took_a_different_path", 1);
+		for(double q : e2.order)
+			if(!(q >= lo && q <= hi))
+			{
+				viol("evaluated_outside_bracket", "reversed bracket: function evaluated at " + mc::dec(q) + " outside [" + mc::dec(lo) + "," + mc::dec(hi) + "]");
+				break;
+			}
+		if(!(r2 >= lo && r2 <= hi)) viol("result_outside_bracket", "reversed bracket: returned " + mc::dec(r2));
+		// only what the reversed call evaluated itself certifies it
+		std::vector<std::pair<double, double>> own;
+		for(auto& pv : e2.pts)
+			if(std::find(e2.order.begin(), e2.order.end(), pv.first) != e2.order.end()) own.push_back(pv);
+		if(!certificate(own, r2, c.acc)) viol("no_sign_change_within_accuracy", "reversed bracket: returned " + mc::dec(r2) + " after " + std::to_string(e2.order.size()) + " evaluations without a sign change within the accuracy among the answers it received");
 		st.executions++;
 	}
 	if(verbose) printf("result %.17g after %zu evaluations, certificate %s\n", r, e.order.size(), certificate(e.pts, r, c.acc) ? "yes" : "NO");
@@ -313,7 +327,7 @@ static void check_family_case(const Fam& F, double acc, Stats& st)
 			mc::violation("families", "families|" + F.name + "|lo=" + mc::dec(F.lo) + ",hi=" + mc::dec(F.hi) + ",acc=" + mc::dec(acc) + "|" + cls, text, g_current + " class=" + cls);
 		};
 		if(rev == 0) { first_r = r; first_q = q; }
-		else if(!mc::same_bits(r, first_r) || q != first_q) viol("bracket_order_matters", "results/queries differ between (a,b) and (b,a): " + mc::dec(first_r) + " vs " + mc::dec(r));
+		else if(!mc::same_bits(r, first_r) || q != first_q) mc::count("reversed_bracket_took_a_different_path", 1);	// not promised; each order is judged on its own below
 		for(double x : q)
 			if(!(x >= F.lo && x <= F.hi)) { viol("evaluated_outside_bracket", "evaluated at " + mc::dec(x)); break; }
 		if(!(r >= F.lo && r <= F.hi)) viol("result_outside_bracket", "returned " + mc::dec(r));
